@@ -4,7 +4,6 @@ bin/gen-manifest turns this into MANIFEST.json."""
 NOT_APPLICABLE = {
     "C18": "reachability of stored tree nodes from the current root over all histories is a property of runtime data, not of code shape",
     "C46": "semantic equivalence of two WASM programs (before/after instrumentation)",
-    "C22": "agreement of typed codecs with generated schemas is a payload-level relation over every value; the only structural clause in reach (ValueKind of manual Categorize impls vs TypeKind of their Describe impls) could not be extracted reliably: type_data bodies build TypeKind through generic helper constructors and derive-expanded impls are indistinguishable from manual ones in MIR; withdrawn rather than weakened (DESIGN.md C22)",
 }
 
 # property id -> dict(technique, level, text, note, design_ref, configs)
@@ -303,3 +302,12 @@ claim("C38", "table agreement between the analyser's 'returns nothing' classific
       "unknown-resources value, and the worktop receives exactly the invocation's output; resolve_native_invocation is exhaustive. That the declared "
       "bounds of the 50 non-trivial invocations are right and that executions stay within reported bounds is semantic and not decided.",
       level="other")
+
+claim("C22", "table agreement between sibling trait impls: value kind vs type kind, Encode/Decode/Describe arity and discriminator tables",
+      "Decides the table-agreement clause between the sibling impls of every SBOR type of the analysed crates (about 1400 types, derive-generated and "
+      "manual alike, read from the type-checked MIR so the derive macros' actual output is what is compared): the value kind written by "
+      "Categorize equals the type kind declared by Describe::type_data; for tuple-shaped types the arity written by Encode, required by Decode "
+      "and listed by Describe agree; for enum-shaped types the (discriminator -> arity) tables of Encode, Decode and Describe agree and the "
+      "decoder's catch-all discriminator arm rejects; transparent wrappers delegate to the same inner type on every side. Child type ids, "
+      "validations, custom-value payloads and hand-written codecs of another shape are not compared (counted as undecided in the evidence); "
+      "payload-level agreement for every value is not decided.", level="other")
